@@ -361,8 +361,9 @@ def _run(w, plan):
     _record = sim.record
 
     def record_and_snap(kind, *a):
-        if kind == "c_write":
-            snap_cache()
+        # (not only writes: a request routed inside the event - queued on a broker client that is still connecting - is
+        # written much later; the connection attempt it causes is recorded at once)
+        snap_cache()
         return _record(kind, *a)
 
     sim.record = record_and_snap
